@@ -14,6 +14,10 @@ V_NOTE = ("Trusted: Lean kernel + standard axioms; slot-machine model of convert
           "unequal-layout element type pairs, zero-size elements by counts, debug and optimised builds, ledger + counting "
           "allocator + payload identity). Modelled not verified: Vec::set_len/transmute, catch_unwind; converter contract assumed.")
 
+X_NOTE = ("Trusted: Lean kernel + standard axioms; translators/translate.py; the abstract machine's reading of ptr::read/write, moves, scope-end drops, "
+          "ManuallyDrop, mem::forget (modelled; validated by channel X on 40 (quick) / 300 (thorough) generated modules x 3 builds); rustc/LLVM; "
+          "Rust's aliasing model beyond the write-permission rule. Replays are deterministic in VERIF_SEED (the replay file lists the module's requests).")
+
 CLAIMS = {
  "C01": ("Kernel-checked theorem C01_disjoint over the Lean model of builder + all four native strategies: for every request "
          "history with every per-close strategy choice, all data of every variant are pairwise disjoint (induction: layout "
@@ -54,13 +58,31 @@ CLAIMS = {
          "and failure positions.", "4 C09", V_NOTE, "Lean 4 refinement theorem + correspondence with drop ledger and counting allocator"),
  "C10": ("C10_refuse / C10_accept: layouts differing in size or alignment are refused before any element is read or the converter "
          "called, the input dropped normally; equal layouts never refused.", "4 C10", V_NOTE, "Lean 4 theorem + correspondence over a type-pair matrix"),
+ "C04": ("Translated primitives (regenerated from data.rs each run): C04_store_permission (stores and &mut through as_mut_ptr on &mut self, all "
+         "use the offset); byte-level machine theorems C04_store_load / C04_store_frame (a stored value is read back; a store leaves every "
+         "datum apart from it untouched). The full refinement (constructor/accessor/unpack programs = abstract record) is the goal; its "
+         "program-level half is carried by channel X: the Lean machine running the Lean generator's programs predicts every value of every "
+         "API operation of compiled generated modules in debug and release builds.", "4 C04", X_NOTE,
+         "Lean 4 theorems over translated primitives + abstract machine; correspondence with compiled generated code (3 builds)"),
+ "C05": ("C05_program_order_partial (reads of removed fields, then bit copy, then stores of added fields), C05_reading_removed_keeps_others_partial, "
+         "C05_adding_keeps_carried_partial (stores apart from a carried field leave it unchanged: needs C01 on the new variant). Full statement "
+         "on `call convFn` is the goal; channel X checks every conversion form and random chains on compiled code against the machine and an "
+         "independent value tracker.", "4 C05", X_NOTE, "Lean 4 theorems (partial) + correspondence with compiled generated code"),
+ "C06": ("C06_no_second_read_partial (a value read out can never be read out again: second load is a machine error) and C06_read_frame_partial; "
+         "ledger balance over operation sequences is checked on compiled code by channel X (drop multiset per call vs machine prediction, and an "
+         "independent birth/death ledger with leak detection at the end of every module).", "4 C06", X_NOTE,
+         "Lean 4 theorems (partial) + correspondence with drop ledger on compiled generated code"),
+ "C07": ("C07_store_tolerates_misalignment and C07_loads_are_typed decided on the translated primitives; C07_aligned_access (typed loads/references "
+         "inside a repr(align(A)) record are aligned, from C02), C07_in_bounds; the hook log of every primitive access of compiled code is checked "
+         "for bounds and alignment at real addresses (stack/Box/Vec, CAP = MAX_SIZE and larger) and compared with the machine's access multiset.", "4 C07", X_NOTE,
+         "Lean 4 theorems over translated primitives + access-log validation on compiled generated code"),
 }
 PENDING = "check not built yet (build phase in progress); planned per DESIGN.md section 4"
 
 def main():
     m = {"version": 1, "setup_cmd": "./setup.sh",
-         "hooks": {"guard": "verif-hooks", "enable": "cargo feature verif-hooks on truc_runtime (not committed yet)",
-                   "baseline_off_cmd": "cd /repo && cargo test --workspace --no-fail-fast --offline", "source_commits": [], "add_only": True},
+         "hooks": {"guard": "verif-hooks", "enable": "cargo feature verif-hooks on truc_runtime (lab crate feature `hooks` turns it on)",
+                   "baseline_off_cmd": "cd /repo && cargo test --workspace --no-fail-fast --offline", "source_commits": ["54f6f80"], "add_only": True},
          "engines": [{"name": "lean-model", "path": "lean/TrucModel", "serves_properties": sorted(CLAIMS), "kind_free_text": "Lean 4 model, theorems, line-protocol driver"},
                      {"name": "harness", "path": "harness", "serves_properties": sorted(CLAIMS), "kind_free_text": "Rust harness driving the real code; independent oracles for failing-input search"}],
          "checks": [], "not_applicable": [], "notes": "see DESIGN.md; known-findings.jsonl lists fixed defects"}
